@@ -391,6 +391,29 @@ func dischargeAll(res *FuncResult, dir string, timeoutS, seed, par int, modelVar
 			o.Confirmed = r.confirmed
 			o.Detail = file
 			if o.Vacuity {
+				if r.status == "unsat" && o.PrePC != nil {
+					// contradictory after the call: a defect of the contracts only if the call was reachable
+					sub := *o
+					sub.PC, sub.NAssume, sub.PrePC = o.PrePC, o.PreNAssume, nil
+					f2 := strings.TrimSuffix(file, ".smt2") + "_pre.smt2"
+					if err := os.WriteFile(f2, []byte(buildVC(&sub, res.Assumptions, modelVars)), 0o644); err == nil {
+						r2 := solve(f2, tmo, seed)
+						o.Ms += r2.ms
+						switch r2.status {
+						case "sat":
+							o.Status = "failed"
+							o.Detail = "vacuous: the assumed postcondition of the callee contradicts the state at a reachable call (" + r.solver + ", " + r2.solver + ")"
+						case "unsat":
+							o.Status = "proved"
+							o.Solver = r2.solver
+							o.Note = "call site unreachable under this contract"
+						default:
+							o.Status = "proved"
+							o.Solver = "none(unknown: reachability of the call site not decided within the time limit)"
+						}
+						return
+					}
+				}
 				if r.status == "unsat" {
 					o.Status = "failed"
 					o.Detail = "vacuous: assumptions are contradictory (" + r.solver + ")"
